@@ -398,3 +398,74 @@ fault("c15-length-menu", "C15", "R15c", (GP, '                    self.wfile.wri
 fault("c15-no-prefix", "C15", "R15d", (GP, '                        " " + x + "\\r\\n"', '                        x + "\\r\\n"'))
 fault("c15-sidecar-no-rstrip", "C15", "R15e", (GE, '"\\n".join([x.rstrip() for x in rfile.readlines(20480)])', '"".join(rfile.readlines(20480))'))
 fault("c15-sidecar-binary", "C15", "R15e", (GE, '                    selector + extension, "r", errors="surrogateescape"', '                    selector + extension, "rb"'))
+
+# ======================================================================= C05
+fault("c05-encoder-strict", "C05", "R05a", (HTTP, 'url = urllib.parse.quote(entry.getselector(), errors="surrogateescape")', "url = urllib.parse.quote(entry.getselector().encode(errors=\"replace\"))"))
+fault("c05-decoder-default", "C05", "R05a", (GEM, '        self.selector = urllib.parse.unquote(selector, errors="surrogateescape")', "        self.selector = urllib.parse.unquote(selector)"))
+fault("c05-safe-question", "C05", "R05a", (SPAR, "            url = urllib.parse.quote(selector)\n            url = url or \"/\"  # Use \"/\" for relative links to the root URL\n        else:", "            url = urllib.parse.quote(selector, safe=\"/? \")\n            url = url or \"/\"  # Use \"/\" for relative links to the root URL\n        else:"))
+fault("c05-no-decode", "C05", "R05a", (SPAR, '        self.selector = urllib.parse.unquote(path, errors="surrogateescape")', "        self.selector = path"))
+fault("c05-double-decode", "C05", "R05a", (HTTP, '        self.selector = self.slashnormalize(self.selector)\n        self.formvals', '        self.selector = urllib.parse.unquote(self.selector, errors="surrogateescape")\n        self.selector = self.slashnormalize(self.selector)\n        self.formvals'))
+fault("c05-quote-plus", "C05", "R05a", (HTTP, 'url = urllib.parse.quote(entry.getselector(), errors="surrogateescape")', 'url = urllib.parse.quote_plus(entry.getselector(), errors="surrogateescape")'))
+twin("c05-twin-explicit-utf8", "C05", (HTTP, 'url = urllib.parse.quote(entry.getselector(), errors="surrogateescape")', 'url = urllib.parse.quote(entry.getselector(), encoding="utf-8", errors="surrogateescape")'))
+fault("c05-wap-literal-prefix", "C05", "R05b", (WAP, "            url = self.waptop + url", '            url = "/wap" + url'))
+fault("c05-wap-other-option", "C05", "R05b", (WAP, "        self.waptop = waptop\n", '        self.waptop = self.config.get("pygopherd", "servername")\n'))
+fault("c05-gemini-literal-prefix", "C05", "R05b", (GEM, "                url = self.query_prefix + url", '                url = "/GEMINI-SEARCH" + url'))
+fault("c05-virtual-sep", "C05", "R05c", (VIRT, 'return self.getselector() + "|" + args', 'return self.getselector() + "!" + args'))
+twin("c05-twin-virtual-question", "C05", (VIRT, 'return self.getselector() + "|" + args', 'return self.getselector() + "?" + args'))
+fault("c05-child-selector-basename", "C05", "R05d", (DIR, '                    self.selectorbase + "/" + file,\n                    self.searchrequest,', '                    "/" + file,\n                    self.searchrequest,'))
+fault("c05-child-other-vfs", "C05", "R05d", (DIR, "                    vfs=self.vfs,\n                )\n                fileentry", "                )\n                fileentry"))
+fault("c05-mbox-flag-mismatch", "C05", "R05d", (MBOX, 'class MBoxFolderHandler(FolderHandler):', 'class MBoxFolderHandler(FolderHandler):\n    def getargflag(self):\n        return "/MBOX-MSG/"\n\n    def _unused(self):\n        pass\n'), (MBOX, '        super().prepare()\n        finally:\n            self.mbox.close()\n\n    def getargflag(self):\n        return "/MBOX-MESSAGE/"', '        super().prepare()\n        finally:\n            self.mbox.close()'))
+fault("c05-mbox-from-zero", "C05", "R05d", (MBOX, "enumerate(self.mbox, start=1)", "enumerate(self.mbox)"))
+
+# ======================================================================= C06
+fault("c06-override-writedir", "C06", "R06a", (GEM, "    def renderdirend(self, entry):", "    def writedir(self, entry, dirlist):\n        for direntry in dirlist:\n            if direntry.gettype() != \"i\":\n                self.wfile.write(self.renderobjinfo(direntry).encode())\n\n    def renderdirend(self, entry):"))
+fault("c06-skip-info", "C06", "R06a", (PBASE, "        for direntry in dirlist:\n            self.wfile.write(", "        for direntry in dirlist:\n            if direntry.gettype() == \"i\" and self.groksabstract():\n                continue\n            self.wfile.write("))
+fault("c06-render-conditional", "C06", "R06a", (PBASE, "        for direntry in dirlist:\n            self.wfile.write(\n                self.renderobjinfo(direntry).encode(errors=\"surrogateescape\")\n            )", "        for direntry in dirlist:\n            if direntry.getname():\n                self.wfile.write(\n                    self.renderobjinfo(direntry).encode(errors=\"surrogateescape\")\n                )"))
+fault("c06-own-loop", "C06", "R06a", (SPAR, "            self.writedir(self.entry, handler.getdirlist())", "            for e in handler.getdirlist():\n                self.wfile.write(self.renderobjinfo(e).encode())"))
+twin("c06-twin-render-local", "C06", (PBASE, "            self.wfile.write(\n                self.renderobjinfo(direntry).encode(errors=\"surrogateescape\")\n            )", "            line = self.renderobjinfo(direntry)\n            self.wfile.write(line.encode(errors=\"surrogateescape\"))"))
+fault("c06-skip-normalize", "C06", "R06b", (GEM, "        self.selector = self.slashnormalize(self.selector)\n", ""))
+fault("c06-normalize-no-lead", "C06", "R06b", (PBASE, '        if len(selector) == 0 or selector[0] != "/":\n            selector = "/" + selector\n', '        if len(selector) and selector[0] != "/":\n            selector = "/" + selector\n'))
+twin("c06-twin-normalize-helper", "C06", (SPAR, '        self.selector = urllib.parse.unquote(path, errors="surrogateescape")\n        self.selector = self.slashnormalize(self.selector)', '        decoded = urllib.parse.unquote(path, errors="surrogateescape")\n        self.selector = self.slashnormalize(decoded)'))
+fault("c06-d11-unfixed", "C06", "R06c", (HTTP, '            self.formvals = urllib.parse.parse_qs(\n                splitted[1], errors="surrogateescape"\n            )', "            self.formvals = urllib.parse.parse_qs(splitted[1])"))
+fault("c06-gemini-query-replace", "C06", "R06c", (GEM, '        self.searchrequest = urllib.parse.unquote(\n            searchrequest, errors="surrogateescape"\n        )', "        self.searchrequest = urllib.parse.unquote(searchrequest)"))
+fault("c06-spartan-body-strict", "C06", "R06c", (SPAR, '            self.searchrequest = data.decode(errors="surrogateescape")', "            self.searchrequest = data.decode(errors=\"replace\")"))
+fault("c06-request-line-latin1", "C06", "R06c", (SERVER, '        request = self.rfile.readline().decode(errors="surrogateescape")', '        request = self.rfile.readline().decode("latin-1")'))
+fault("c06-menu-type-wrong", "C06", "R06d", (GEM, '        if mimetype == "application/gopher-menu":\n            return "text/gemini"\n        return mimetype\n\n    def renderobjinfo(self, entry):\n        urlmatch', '        if mimetype == "application/gopher-menu":\n            return "text/plain"\n        return mimetype\n\n    def renderobjinfo(self, entry):\n        urlmatch'))
+fault("c06-adjust-not-total", "C06", "R06d", (HTTP, '        if mimetype is None:\n            return "text/plain"\n        if mimetype == "application/gopher-menu":\n            return "text/html"', '        if mimetype == "application/gopher-menu":\n            return "text/html"'))
+
+# ======================================================================= C07
+fault("c07-no-sort", "C07", "R07a", (DIR, "        # Sort the list.\n        self.files.sort()\n", ""))
+fault("c07-sort-before-fill", "C07", "R07a", (DIR, "        self.prep_initfiles()\n\n        # Sort the list.\n        self.files.sort()\n", "        self.files = []\n        self.files.sort()\n        self.prep_initfiles()\n"))
+twin("c07-twin-sorted-iter", "C07", (DIR, "        # Sort the list.\n        self.files.sort()\n", ""), (DIR, "        for file in self.files:\n            # We look up", "        for file in sorted(self.files):\n            # We look up"))
+fault("c07-d12-unfixed", "C07", "R07b", (DIR, "dirfiles = sorted(self.vfs.listdir(self.getselector()))", "dirfiles = self.vfs.listdir(self.getselector())"))
+twin("c07-twin-sort-inplace", "C07", (DIR, "dirfiles = sorted(self.vfs.listdir(self.getselector()))", "dirfiles = self.vfs.listdir(self.getselector())\n        dirfiles.sort()"))
+fault("c07-ignorepatt-in-test", "C07", "R07c", (FILE, '        return self.statresult and stat.S_ISREG(self.statresult[stat.ST_MODE])\n\n    def getentry(self):\n        if not self.entry:\n            self.entry = gopherentry.GopherEntry(self.selector, self.config)\n            self.entry.populatefromfs', '        if re.search(self.config.get("handlers.dir.DirHandler", "ignorepatt"), self.selector):\n            return False\n        return self.statresult and stat.S_ISREG(self.statresult[stat.ST_MODE])\n\n    def getentry(self):\n        if not self.entry:\n            self.entry = gopherentry.GopherEntry(self.selector, self.config)\n            self.entry.populatefromfs'))
+fault("c07-dotdir-listed", "C07", "R07d", (UMN, '                    return False  # A "dot dir" -- ignore.', '                    return True  # A "dot dir" -- ignore.'))
+twin("c07-twin-dot-early", "C07", (UMN, "        if super().prep_initfiles_canaddfile(ignorepatt, pattern, file):", "        if file[0] == \".\" and self.vfs.isdir(self.selectorbase + \"/\" + file):\n            return False\n        if super().prep_initfiles_canaddfile(ignorepatt, pattern, file):"))
+fault("c07-cmp-by-selector", "C07", "R07e", (UMN, "            return cmp(entry1.name, entry2.name)", "            return cmp(entry1.selector, entry2.selector)"))
+fault("c07-append-twice", "C07", "R07f", (DIR, "                    self.files.append(file)\n", "                    self.files.append(file)\n                    if file.endswith(\".txt\"):\n                        self.files.append(file)\n"))
+fault("c07-append-unfiltered", "C07", "R07f", (DIR, "                if self.prep_initfiles_canaddfile(\n                    ignorepatt, self.selectorbase + \"/\" + file, file\n                ):\n                    self.files.append(file)", "                self.prep_initfiles_canaddfile(\n                    ignorepatt, self.selectorbase + \"/\" + file, file\n                )\n                self.files.append(file)"))
+fault("c07-filter-on-name-only", "C07", "R07f", (DIR, '                    ignorepatt, self.selectorbase + "/" + file, file\n', '                    ignorepatt, file, file\n'))
+
+# ======================================================================= C08
+fault("c08-diffsign-swapped", "C08", "R08a", (UMN, "        if e1num > e2num:\n            return -1\n        else:\n            return 1", "        if e1num > e2num:\n            return 1\n        else:\n            return -1"))
+fault("c08-names-descending", "C08", "R08a", (UMN, "            return cmp(entry1.name, entry2.name)", "            return cmp(entry2.name, entry1.name)"))
+fault("c08-numeric-descending", "C08", "R08a", (UMN, "            return cmp(e1num, e2num)", "            return cmp(e2num, e1num)"))
+fault("c08-cmp-broken", "C08", "R08a", (UMN, "    return (a > b) - (a < b)", "    return (a > b) - (a <= b)"))
+fault("c08-sgn-zero", "C08", "R08a", (UMN, "        if a == 0:\n            return 0\n        if a < 0:", "        if a == 0:\n            return 1\n        if a < 0:"))
+twin("c08-twin-inline-sgn", "C08", (UMN, "        if self.sgn(e1num) == self.sgn(e2num):", "        if ((e1num > 0) - (e1num < 0)) == ((e2num > 0) - (e2num < 0)):"))
+fault("c08-sort-by-name", "C08", "R08b", (UMN, "self.fileentries.sort(key=functools.cmp_to_key(self.entrycmp))", "self.fileentries.sort(key=lambda e: e.name or \"\")"))
+fault("c08-sort-before-merge", "C08", "R08b", (UMN, "            self.MergeLinkFiles()\n            self.fileentries.sort(key=functools.cmp_to_key(self.entrycmp))", "            self.fileentries.sort(key=functools.cmp_to_key(self.entrycmp))\n            self.MergeLinkFiles()"))
+
+# ======================================================================= C14
+fault("c14-unguarded-rootpath", "C14", "R14a", (BASE, "        if not rootpath:\n            rootpath = self.config.get(\"pygopherd\", \"root\")", "        rootpath = self.config.get(\"pygopherd\", \"root\") + \"\""))
+fault("c14-handlers-append", "C14", "R14a", (URL, "        handlerlist = [\n            x for x in handlers.HandlerMultiplexer.handlers if x != URLTypeRewriter\n        ]", "        handlers.HandlerMultiplexer.handlers.remove(URLTypeRewriter)\n        handlerlist = handlers.HandlerMultiplexer.handlers"))
+fault("c14-request-counter", "C14", "R14a", (HM, "    global handlers, rootpath\n    init_default_handlers(config)\n", "    global handlers, rootpath, last_selector\n    last_selector = selector\n    init_default_handlers(config)\n"))
+fault("c14-mimetypes-on-request", "C14", "R14a", (GE, "        mimetype, encoding = mimetypes.guess_type(self.selector, strict=False)\n", "        mimetypes.types_map.update({\".gmi\": \"text/gemini\"})\n        mimetype, encoding = mimetypes.guess_type(self.selector, strict=False)\n"))
+fault("c14-class-level-list", "C14", "R14a", (GMAP, 'class BuckGophermapHandler(BaseHandler):\n    """Bucktooth selector handler.  Adheres to the specification\n    at gopher://gopher.floodgap.com:70/0/buck/dbrowse%3Ffaquse%201"""\n', 'class BuckGophermapHandler(BaseHandler):\n    """Bucktooth selector handler."""\n\n    entries = []\n'), (GMAP, "        self.entries = []\n\n        selectorbase", "        selectorbase"))
+twin("c14-twin-is-none", "C14", (BASE, "        if not rootpath:\n", "        if rootpath is None:\n"))
+fault("c14-protocol-cached", "C14", "R14b", (PMUX, "        ptry = protocol(request, server, requesthandler, rfile, wfile, config)\n", "        ptry = protocol(request, server, requesthandler, rfile, wfile, config)\n        server.lastprotocol = ptry\n"))
+fault("c14-header-cache-on-server", "C14", "R14b", (HTTP, "        self.requesthandler.pygopherd_http_slurped = self.httpheaders", "        self.server.pygopherd_http_slurped = self.httpheaders"))
+fault("c14-child-returns", "C14", "R14c", (SERVER, "                finally:\n                    os._exit(status)", "                finally:\n                    pass"))
+fault("c14-no-active-children", "C14", "R14c", (SERVER, "            self.active_children.add(pid)\n", ""))
+fault("c14-thread-no-finally", "C14", "R14c", (SERVER, "        except Exception:\n            self.handle_error(request, client_address)\n        finally:\n            self.shutdown_request(request)", "        except ValueError:\n            self.handle_error(request, client_address)\n        finally:\n            self.shutdown_request(request)"))
